@@ -170,6 +170,34 @@ def wide_set(n=160):
             "meta": {"src": "names", "pos": "field", "cls": "wide", "kind": "struct", "word": "*", "key": "wide|struct|%d fields" % n}}
 
 
+def shapes_set():
+    """structurally extreme types the property names (empty, zero-bit with members, maximally wide, every primitive family incl. byte / utf8)
+    in ONE namespace set with plain names: what a template's special cases (empty body, zero-cost arrays, text / byte arrays) must survive"""
+    f = {
+        "sroot/Empty.1.0.dsdl": "@sealed\n",
+        "sroot/EmptyD.1.0.dsdl": "@extent 8 * 8\n",
+        "sroot/PadOnly.1.0.dsdl": "void8\n@sealed\n",
+        # members, but not a single bit on the wire
+        "sroot/TwoEmpties.1.0.dsdl": "sroot.Empty.1.0 a\nsroot.Empty.1.0 b\n@sealed\n",
+        "sroot/EmptyArr.1.0.dsdl": "sroot.Empty.1.0[3] arr\n@sealed\n",
+        "sroot/EmptyNest.1.0.dsdl": "sroot.TwoEmpties.1.0 t\nsroot.EmptyArr.1.0[2] u\n@sealed\n",
+        "sroot/EmptySvc.1.0.dsdl": "sroot.Empty.1.0 a\nsroot.Empty.1.0 b\n@sealed\n---\nsroot.Empty.1.0[2] r\n@sealed\n",
+        "sroot/EmptyNextToReal.1.0.dsdl": "sroot.Empty.1.0 e\nuint8 x\nsroot.EmptyD.1.0 d\n@sealed\n",
+        "sroot/VarEmpties.1.0.dsdl": "sroot.Empty.1.0[<=3] v\n@sealed\n",
+        "sroot/UnionOfEmpties.1.0.dsdl": "@union\nsroot.Empty.1.0 a\nsroot.Empty.1.0 b\n@sealed\n",
+        # byte / text arrays (their own PyDSDL classes), fixed and variable, in every kind of composite
+        "sroot/Bytes.1.0.dsdl": "byte[4] fb\nbyte[<=5] vb\nutf8[<=6] text\nuint8[<=3] plain\n@sealed\n",
+        "sroot/BytesU.1.0.dsdl": "@union\nbyte[<=5] vb\nutf8[<=6] text\nuint8 n\n@extent 64 * 8\n",
+        "sroot/BytesSvc.1.0.dsdl": "utf8[<=16] name\n@sealed\n---\nbyte[<=16] blob\nbyte[2] tag\n@extent 64 * 8\n",
+        # every primitive family at awkward widths, scalar and in both kinds of arrays
+        "sroot/Prims.1.0.dsdl": "".join("%s s%d\n%s[2] f%d\n%s[<=2] v%d\n" % (t, i, t, i, t, i) for i, t in enumerate(
+            ["bool", "uint1", "uint7", "uint8", "uint24", "uint33", "uint64", "int2", "int8", "int24", "int40", "int64", "float16", "float32", "float64",
+             "truncated uint12", "truncated float16"])) + "@sealed\n",
+        "sroot/User.1.0.dsdl": "sroot.TwoEmpties.1.0 a\nsroot.Bytes.1.0 b\nsroot.Prims.1.0[<=2] p\nsroot.BytesU.1.0 u\nsroot.EmptyD.1.0[2] d\n@extent 8000 * 8\n",
+    }
+    return {"id": "x-shapes", "roots": ["sroot"], "files": f, "meta": {"src": "names", "pos": "type", "cls": "shapes", "kind": "struct", "word": "*", "key": "shapes|extreme structures"}}
+
+
 def bulk_sets(ctx):
     """[(set, configurations)]: all keywords of C11 + C++20 (for c / cpp) resp. of Python (for py) as field names, as constant names and as
     type names of one namespace; words the DSDL front end itself refuses are left out (each word is asked separately)."""
@@ -1550,10 +1578,16 @@ def run(ctx):
         ctx.distinct(bs["meta"]["key"])
     ctx.cov["bulk_keyword_sets"] = [{"key": bs["meta"]["key"], "configurations": cfgs} for bs, cfgs in bsets]
     wide = wide_set()
-    wr = run_jobs(ctx, [mkjob(ctx, wide, [(cfg, m) for cfg in ("c", "cpp17", "py") for m in omodes], tool_matrix(full=False))])[0]
+    shp = shapes_set()
+    wr, sr = run_jobs(ctx, [mkjob(ctx, wide, [(cfg, m) for cfg in ("c", "cpp17", "py") for m in omodes], tool_matrix(full=False)),
+                            mkjob(ctx, shp, [(cfg, m) for cfg in ALL_CFGS for m in omodes], tools)])
     if wr["accepted"]:
         camp.add(wide, wr)
         ctx.distinct(wide["meta"]["key"])
+    if not sr["accepted"]:
+        raise MachineryFailure("the front end rejected the set of extreme structures: %s" % sr["why"])
+    camp.add(shp, sr)
+    ctx.distinct(shp["meta"]["key"])
     camp.judge()
 
     # ---- 4. code -> spec: larger random sets and the trees shipped in the repository
